@@ -92,6 +92,18 @@ func (u *Unmarshaler) fillMap(fieldType reflect.Type, value reflect.Value,
 		return errValueNotSettable
 	}
 
+	if fieldType.Kind() == reflect.Ptr {
+		// pointer to map: fill the map, then point to it
+		baseType := Deref(fieldType)
+		target := reflect.New(baseType).Elem()
+		if err := u.fillMap(baseType, target, mapValue, fullName); err != nil {
+			return err
+		}
+
+		SetValue(fieldType, value, target)
+		return nil
+	}
+
 	fieldKeyType := fieldType.Key()
 	fieldElemType := fieldType.Elem()
 	targetValue, err := u.generateMap(fieldKeyType, fieldElemType, mapValue, fullName)
@@ -134,6 +146,18 @@ func (u *Unmarshaler) fillSlice(fieldType reflect.Type, value reflect.Value,
 		return errValueNotSettable
 	}
 
+	if fieldType.Kind() == reflect.Ptr {
+		// pointer to slice: fill the slice, then point to it
+		baseType := Deref(fieldType)
+		target := reflect.New(baseType).Elem()
+		if err := u.fillSlice(baseType, target, mapValue, fullName); err != nil {
+			return err
+		}
+
+		SetValue(fieldType, value, target)
+		return nil
+	}
+
 	refValue := reflect.ValueOf(mapValue)
 	if refValue.Kind() != reflect.Slice {
 		return newTypeMismatchErrorWithHint(fullName, reflect.Slice.String(), fmt.Sprintf("%T", mapValue))
@@ -168,7 +192,7 @@ func (u *Unmarshaler) fillSlice(fieldType reflect.Type, value reflect.Value,
 				return err
 			}
 		case reflect.Slice:
-			if err := u.fillSlice(dereffedBaseType, conv.Index(i), ithValue, sliceFullName); err != nil {
+			if err := u.fillSlice(baseType, conv.Index(i), ithValue, sliceFullName); err != nil {
 				return err
 			}
 		default:
@@ -187,6 +211,18 @@ func (u *Unmarshaler) fillSlice(fieldType reflect.Type, value reflect.Value,
 
 func (u *Unmarshaler) fillSliceFromString(fieldType reflect.Type, value reflect.Value,
 	mapValue any, fullName string) error {
+	if fieldType.Kind() == reflect.Ptr {
+		// pointer to slice: fill the slice, then point to it
+		baseType := Deref(fieldType)
+		target := reflect.New(baseType).Elem()
+		if err := u.fillSliceFromString(baseType, target, mapValue, fullName); err != nil {
+			return err
+		}
+
+		SetValue(fieldType, value, target)
+		return nil
+	}
+
 	var slice []any
 	switch v := mapValue.(type) {
 	case fmt.Stringer:
@@ -282,7 +318,7 @@ func (u *Unmarshaler) fillSliceWithDefault(derefedType reflect.Type, value refle
 		defaultCacheLock.Unlock()
 	}
 
-	return u.fillSlice(derefedType, value, slice, fullName)
+	return u.fillSlice(value.Type(), value, slice, fullName)
 }
 
 func (u *Unmarshaler) fillStructElement(baseType reflect.Type, target reflect.Value,
@@ -353,11 +389,11 @@ func (u *Unmarshaler) generateMap(keyType, elemType reflect.Type, mapValue any,
 		switch dereffedElemKind {
 		case reflect.Slice:
 			target := reflect.New(dereffedElemType)
-			if err := u.fillSlice(elemType, target.Elem(), keythData, mapFullName); err != nil {
+			if err := u.fillSlice(dereffedElemType, target.Elem(), keythData, mapFullName); err != nil {
 				return emptyValue, err
 			}
 
-			targetValue.SetMapIndex(key, target.Elem())
+			SetMapIndexValue(elemType, targetValue, key, target.Elem())
 		case reflect.Struct:
 			keythMap, ok := keythData.(map[string]any)
 			if !ok {
@@ -376,12 +412,12 @@ func (u *Unmarshaler) generateMap(keyType, elemType reflect.Type, mapValue any,
 				return emptyValue, errTypeMismatch
 			}
 
-			innerValue, err := u.generateMap(elemType.Key(), elemType.Elem(), keythMap, mapFullName)
+			innerValue, err := u.generateMap(dereffedElemType.Key(), dereffedElemType.Elem(), keythMap, mapFullName)
 			if err != nil {
 				return emptyValue, err
 			}
 
-			targetValue.SetMapIndex(key, innerValue)
+			SetMapIndexValue(elemType, targetValue, key, innerValue)
 		default:
 			switch v := keythData.(type) {
 			case bool:
